@@ -333,9 +333,13 @@ Proof. intros W. apply (dt_wf_same st); try reflexivity; [apply all_premul_reset
 (** * 5. DrawTarget::composite is total                                *)
 (* ================================================================== *)
 
-(* the coverage mask handed to composite covers its rectangle, row-major (when that rectangle is not empty) *)
+(* the coverage mask handed to composite covers its rectangle, row-major - needed only when that rectangle is not
+   empty and reaches into the quadrant x > 0, y > 0 (otherwise it cannot meet the surface and no row is read) *)
 Definition mask_fits (mask : option (list Z)) (mr : rect) : Prop :=
-  match mask with Some m => 0 < r_w mr -> 0 < r_h mr -> r_w mr * r_h mr <= zlen m | None => True end.
+  match mask with
+  | Some m => 0 < r_w mr -> 0 < r_h mr -> 0 < x1 mr -> 0 < y1 mr -> r_w mr * r_h mr <= zlen m
+  | None => True
+  end.
 
 Lemma choose_blitter_kind mask cm blend :
   has_mask_kind mask (choose_blitter (match mask with Some _ => true | None => false end) cm blend).
@@ -603,7 +607,7 @@ Proof.
     + exact W1.
     + cbn [source_ok]. exact Hl.
     + cbn [mask_ok]. apply repeat_Forall. unfold unit_to_u8. apply to_u8_byte.
-    + cbn [mask_fits]. intros _ _. unfold zlen. rewrite repeat_length.
+    + cbn [mask_fits]. intros _ _ _ _. unfold zlen. rewrite repeat_length.
       destruct W as (A & B & _). unfold surface_rect, r_w, r_h. cbn [x0 y0 x1 y1].
       assert (0 <= d_w st * d_h st) by (apply Z.mul_nonneg_nonneg; lia). lia.
   - intros st2 W2. cbn [tot]. apply dt_wf_with_ctm. exact W2.
@@ -637,7 +641,7 @@ Proof.
       * apply dt_wf_with_cur. apply dt_wf_with_cur. exact W.
       * exact Hsrc.
       * cbn [mask_ok]. exact (rasterize_any_byte _ _ _ _ _ _ _ _ _ Er).
-      * cbn [mask_fits]. intros _ _. rewrite (rasterize_any_length _ _ _ _ _ _ _ _ _ Er). lia.
+      * cbn [mask_fits]. intros _ _ _ _. rewrite (rasterize_any_length _ _ _ _ _ _ _ _ _ Er). lia.
     + cbn [tot]. apply dt_wf_with_cur. exact W.
   - intros st1 W1. cbn [tot]. apply dt_wf_reset. exact W1.
 Qed.
@@ -649,28 +653,23 @@ Definition integer_rect (x y w h : f32) : bool :=
 (* the integer fast path is taken: identity transform, integer rectangle, no clip *)
 Definition fast_route (st : dt) (x y w h : f32) : bool :=
   xf_is_identity (d_ctm st) && integer_rect x y w h && (match d_clips st with [] => true | _ => false end).
-(* ix + iwidth and iy + iheight are computed in i32 on the fast path *)
-Definition rect_no_overflow (x y w h : f32) : Prop :=
-  in_i32 (to_i32 x + to_i32 w) = true /\ in_i32 (to_i32 y + to_i32 h) = true.
-
 Lemma fill_rect_unfold st x y w h src o :
   fill_rect st x y w h src o =
   if fast_route st x y w h then
-    do xr <- chk32 (to_i32 x + to_i32 w);
-    do yb <- chk32 (to_i32 y + to_i32 h);
+    let xr := sat32 (to_i32 x + to_i32 w) in
+    let yb := sat32 (to_i32 y + to_i32 h) in
     let irect := r_inter (mkrect (Z.min (to_i32 x) xr) (Z.min (to_i32 y) yb) (Z.max (to_i32 x) xr) (Z.max (to_i32 y) yb)) (surface_rect st) in
     if r_empty irect then Ok st else composite st src None irect irect (o_blend o) (o_alpha o)
   else fill st (rect_path x y w h) src o.
 Proof. reflexivity. Qed.
 
+(* any four floats: the far corner is computed with saturating_add, nothing on the fast path can fail *)
 Theorem fill_rect_total st x y w h src o : dt_wf st -> source_ok src ->
-  (fast_route st x y w h = true -> rect_no_overflow x y w h) ->
   (fast_route st x y w h = false -> fill_raster_ok st (rect_path x y w h) (o_aa o)) ->
   tot (mode_err (o_blend o)) dt_wf (fill_rect st x y w h src o).
 Proof.
-  intros W Hsrc Hov Hr. rewrite fill_rect_unfold. destruct (fast_route st x y w h).
-  - destruct (Hov eq_refl) as [O1 O2]. unfold chk32. rewrite O1, O2. cbn [bind]. cbv zeta.
-    destruct (r_empty _); [exact W|].
+  intros W Hsrc Hr. rewrite fill_rect_unfold. destruct (fast_route st x y w h).
+  - cbv zeta. destruct (r_empty _); [exact W|].
     apply composite_total; [exact W|exact Hsrc|exact I|exact I].
   - apply fill_total; [exact W|exact Hsrc|exact (Hr eq_refl)].
 Qed.
@@ -696,36 +695,51 @@ Proof.
 Qed.
 Print Assumptions clear_total.
 
-(* mask *)
+(* mask: any position and any size (the far corner saturates).  The mask rectangle handed to composite is
+   (x, y, sat32 (x+mw), sat32 (y+mh)); when it reaches x > 0 its width is at most mw (saturation only shrinks it), so
+   every mask row that composite slices, with the stride r_w mr, lies inside data. *)
+Lemma sat32_le v : 0 < sat32 v -> sat32 v <= v.
+Proof. unfold sat32, i32_min, i32_max. lia. Qed.
+
 Theorem mask_op_total st src x y mw mh data : dt_wf st -> source_ok src -> Forall byte data ->
-  in_i32 (x + mw) = true -> in_i32 (y + mh) = true -> mw * mh <= zlen data ->
+  (0 < mw -> 0 < mh -> mw * mh <= zlen data) ->
   exists st', mask_op st src x y mw mh data = Ok st' /\ dt_wf st'.
 Proof.
-  intros W Hsrc Hd Ox Oy Hl. unfold mask_op, chk32. rewrite Ox, Oy. cbn [bind]. cbv zeta.
+  intros W Hsrc Hd Hl. unfold mask_op. cbv zeta.
   apply (tot_ok (mode_err SrcOver)).
   - intros e. apply mode_err_sep. unfold separable_modes. cbn [In]. tauto.
   - apply composite_total; [exact W|exact Hsrc|exact Hd|].
-    cbn [mask_fits]. unfold r_w, r_h. cbn [x0 y0 x1 y1]. intros _ _.
-    replace (x + mw - x) with mw by lia. replace (y + mh - y) with mh by lia. exact Hl.
+    cbn [mask_fits]. unfold r_w, r_h. cbn [x0 y0 x1 y1]. intros Hw Hh Hx Hy.
+    pose proof (sat32_le _ Hx) as Lx. pose proof (sat32_le _ Hy) as Ly.
+    set (a := sat32 (x + mw) - x) in *. set (b := sat32 (y + mh) - y) in *.
+    assert (a * b <= mw * mh) by (apply Z.mul_le_mono_nonneg; lia). specialize (Hl ltac:(lia) ltac:(lia)). lia.
 Qed.
 Print Assumptions mask_op_total.
+
+(* The stride composite uses for the mask rows is r_w mr = sat32 (x + mw) - x.  It is the mask's own width mw unless
+   the far corner saturated, and saturation can only meet the surface (x < d_w) on a target and mask that together
+   are wider than 2^31 pixels; there the rows after the first are read with the shorter stride (in range - see
+   mask_op_total - but not the caller's rows).  Everywhere else mask() reads exactly data[(Y-y)*mw + (X-x)]. *)
+Lemma mask_stride_exact x mw : in_i32 (x + mw) = true -> sat32 (x + mw) - x = mw.
+Proof. unfold in_i32, sat32, i32_min, i32_max. lia. Qed.
+Lemma mask_stride_differs_only_far_right st x mw : dt_wf st -> in_i32 x = true -> 0 <= mw ->
+  sat32 (x + mw) - x <> mw -> x < d_w st -> i32_max < d_w st + mw.
+Proof. intros (Hw & _) Hx Hm Hd Hlt. unfold in_i32, sat32, i32_min, i32_max in *. lia. Qed.
 
 (* draw_image_at / draw_image_with_size_at are fill_rect with an image source *)
 Definition image_src (w h x y : f32) (im : image) : source :=
   Image im ExtPad Bilinear (xf_then_scale (xf_translation (fneg x) (fneg y)) (fdiv (of_int (i_w im)) w) (fdiv (of_int (i_h im)) h)).
 
 Theorem draw_image_with_size_at_total st w h x y im o : dt_wf st -> image_ok im ->
-  (fast_route st x y w h = true -> rect_no_overflow x y w h) ->
   (fast_route st x y w h = false -> fill_raster_ok st (rect_path x y w h) (o_aa o)) ->
   tot (mode_err (o_blend o)) dt_wf (draw_image_with_size_at st w h x y im o).
-Proof. intros W Him Hov Hr. unfold draw_image_with_size_at. apply fill_rect_total; assumption. Qed.
+Proof. intros W Him Hr. unfold draw_image_with_size_at. apply fill_rect_total; assumption. Qed.
 
 Theorem draw_image_at_total st x y im o : dt_wf st -> image_ok im ->
-  (fast_route st x y (of_int (i_w im)) (of_int (i_h im)) = true -> rect_no_overflow x y (of_int (i_w im)) (of_int (i_h im))) ->
   (fast_route st x y (of_int (i_w im)) (of_int (i_h im)) = false ->
    fill_raster_ok st (rect_path x y (of_int (i_w im)) (of_int (i_h im))) (o_aa o)) ->
   tot (mode_err (o_blend o)) dt_wf (draw_image_at st x y im o).
-Proof. intros W Him Hov Hr. unfold draw_image_at. apply draw_image_with_size_at_total; assumption. Qed.
+Proof. intros W Him Hr. unfold draw_image_at. apply draw_image_with_size_at_total; assumption. Qed.
 
 (* ================================================================== *)
 (** * 9. copy_surface / blend_surface / blend_surface_with_alpha       *)
@@ -748,22 +762,15 @@ Section SurfaceTotal.
 
   Lemma cs_row_tot dw dh sw sh sbuf ox oy xa w buf y :
     Forall px_ok sbuf -> Forall px_ok buf -> zlen buf = dw * dh -> zlen sbuf = sw * sh ->
-    0 <= dw -> dh <= i32_max -> dw * dh <= i32_max -> 0 <= sw -> sw * sh <= i32_max ->
+    0 <= dw -> 0 <= sw ->
     0 <= w -> 0 <= xa -> xa + w <= sw -> 0 <= y < sh ->
     0 <= xa + ox -> xa + ox + w <= dw -> 0 <= y + oy < dh ->
     tot E (fun b' => Forall px_ok b' /\ zlen b' = zlen buf) (cs_row g dw sw sbuf ox oy xa w buf y).
   Proof.
-    intros Hs Hb Lb Ls Hdw Hdh Hd32 Hsw Hs32 Hw Hxa Hxw Hy Hxo Hxow Hyo. unfold cs_row.
+    intros Hs Hb Lb Ls Hdw Hsw Hw Hxa Hxw Hy Hxo Hxow Hyo. unfold cs_row. cbv zeta.
     pose proof (row_bounds (y + oy) dh dw Hyo Hdw) as [D0 D1].
     pose proof (row_bounds y sh sw Hy Hsw) as [S0 S1].
     assert (dw * dh = dh * dw) by ring. assert (sw * sh = sh * sw) by ring.
-    unfold i32_max in *.
-    rewrite (chk32_ok (xa + ox)) by (unfold i32_min, i32_max; lia). cbn [bind].
-    rewrite (chk32_ok (y + oy)) by (unfold i32_min, i32_max; lia). cbn [bind].
-    rewrite (chk32_ok ((y + oy) * dw)) by (unfold i32_min, i32_max; lia). cbn [bind].
-    rewrite (chk32_ok (xa + ox + (y + oy) * dw)) by (unfold i32_min, i32_max; lia). cbn [bind].
-    rewrite (chk32_ok (y * sw)) by (unfold i32_min, i32_max; lia). cbn [bind].
-    rewrite (chk32_ok (xa + y * sw)) by (unfold i32_min, i32_max; lia). cbn [bind].
     destruct (slice_ok_ex px_ok sbuf (xa + y * sw) (xa + y * sw + w) Hs ltac:(lia) ltac:(lia)) as (srow & -> & Fs & Lsr).
     cbn [bind].
     destruct (slice_ok_ex px_ok buf (xa + ox + (y + oy) * dw) (xa + ox + (y + oy) * dw + w) Hb ltac:(lia) ltac:(lia))
@@ -776,13 +783,13 @@ Section SurfaceTotal.
 
   Lemma cs_rows_tot dw dh sw sh sbuf ox oy xa w ys :
     Forall px_ok sbuf -> zlen sbuf = sw * sh ->
-    0 <= dw -> dh <= i32_max -> dw * dh <= i32_max -> 0 <= sw -> sw * sh <= i32_max ->
+    0 <= dw -> 0 <= sw ->
     0 <= w -> 0 <= xa -> xa + w <= sw -> 0 <= xa + ox -> xa + ox + w <= dw ->
     (forall y, In y ys -> 0 <= y < sh /\ 0 <= y + oy < dh) ->
     forall buf, Forall px_ok buf -> zlen buf = dw * dh ->
     tot E (fun b' => Forall px_ok b' /\ zlen b' = zlen buf) (cs_rows g dw sw sbuf ox oy xa w ys buf).
   Proof.
-    intros Hs Ls Hdw Hdh Hd32 Hsw Hs32 Hw Hxa Hxw Hxo Hxow. induction ys as [|y t IH]; intros Hy buf Hb Lb; cbn [cs_rows].
+    intros Hs Ls Hdw Hsw Hw Hxa Hxw Hxo Hxow. induction ys as [|y t IH]; intros Hy buf Hb Lb; cbn [cs_rows].
     - cbn. split; [exact Hb|reflexivity].
     - destruct (Hy y (or_introl eq_refl)) as [Y1 Y2].
       eapply tot_bind; [apply (cs_row_tot dw dh sw sh); assumption|].
@@ -794,51 +801,22 @@ Section SurfaceTotal.
       + lia.
   Qed.
 
-  (* all twelve coordinates of the call stay below 2^29 in magnitude: no i32 overflow in the clipping arithmetic *)
-  Definition coord_ok (v : Z) : Prop := - 536870912 <= v <= 536870912.
-
+  (* any source rectangle and any destination point: the clipping is exact integer arithmetic (i64 in the crate) *)
   Lemma composite_surface_tot dw dh dbuf sw sh sbuf sr dx dy :
     Forall px_ok sbuf -> Forall px_ok dbuf -> zlen dbuf = dw * dh -> zlen sbuf = sw * sh ->
-    0 <= dw <= i32_max -> 0 <= dh <= i32_max -> dw * dh <= i32_max ->
-    0 <= sw <= i32_max -> 0 <= sh <= i32_max -> sw * sh <= i32_max ->
-    coord_ok dx -> coord_ok dy -> coord_ok (x0 sr) -> coord_ok (y0 sr) -> coord_ok (x1 sr) -> coord_ok (y1 sr) ->
     tot E (fun b' => Forall px_ok b' /\ zlen b' = zlen dbuf) (composite_surface g dw dh dbuf sw sh sbuf sr dx dy).
   Proof.
-    intros Hs Hb Lb Ls Hdw Hdh Hd32 Hsw Hsh Hs32 Cdx Cdy Cx0 Cy0 Cx1 Cy1.
-    unfold composite_surface, coord_ok, i32_max in *.
-    rewrite (chk32_ok (dx - x0 sr)) by (unfold i32_min, i32_max; lia). cbn [bind].
-    rewrite (chk32_ok (dy - y0 sr)) by (unfold i32_min, i32_max; lia). cbn [bind]. cbv zeta.
+    intros Hs Hb Lb Ls. unfold composite_surface. cbv zeta.
     set (ox := dx - x0 sr). set (oy := dy - y0 sr).
-    assert (Box : - 1073741824 <= ox <= 1073741824) by (unfold ox; lia).
-    assert (Boy : - 1073741824 <= oy <= 1073741824) by (unfold oy; lia).
-    clearbody ox oy.
-    unfold r_translate, r_inter. cbn [x0 y0 x1 y1].
-    set (a0 := Z.max (x0 sr) 0). set (b0 := Z.max (y0 sr) 0). set (a1 := Z.min (x1 sr) sw). set (b1 := Z.min (y1 sr) sh).
-    assert (Ba0 : 0 <= a0 <= 536870912) by (unfold a0; lia).
-    assert (Bb0 : 0 <= b0 <= 536870912) by (unfold b0; lia).
-    assert (Ba1 : - 536870912 <= a1 <= 536870912 /\ a1 <= sw) by (unfold a1; lia).
-    assert (Bb1 : - 536870912 <= b1 <= 536870912 /\ b1 <= sh) by (unfold b1; lia).
-    clearbody a0 b0 a1 b1.
-    rewrite (chk32_ok (a0 + ox)) by (unfold i32_min, i32_max; lia). cbn [bind].
-    rewrite (chk32_ok (b0 + oy)) by (unfold i32_min, i32_max; lia). cbn [bind].
-    rewrite (chk32_ok (a1 + ox)) by (unfold i32_min, i32_max; lia). cbn [bind].
-    rewrite (chk32_ok (b1 + oy)) by (unfold i32_min, i32_max; lia). cbn [bind]. cbn [x0 y0 x1 y1].
-    rewrite (chk32_ok (- ox)) by (unfold i32_min, i32_max; lia). cbn [bind].
-    rewrite (chk32_ok (- oy)) by (unfold i32_min, i32_max; lia). cbn [bind].
-    set (c0 := Z.max 0 (a0 + ox)). set (d0 := Z.max 0 (b0 + oy)). set (c1 := Z.min dw (a1 + ox)). set (d1 := Z.min dh (b1 + oy)).
-    assert (Bc0 : 0 <= c0 /\ a0 + ox <= c0 /\ (c0 = 0 \/ c0 = a0 + ox)) by (unfold c0; lia).
-    assert (Bd0 : 0 <= d0 /\ b0 + oy <= d0 /\ (d0 = 0 \/ d0 = b0 + oy)) by (unfold d0; lia).
-    assert (Bc1 : c1 <= dw /\ c1 <= a1 + ox /\ (c1 = dw \/ c1 = a1 + ox)) by (unfold c1; lia).
-    assert (Bd1 : d1 <= dh /\ d1 <= b1 + oy /\ (d1 = dh \/ d1 = b1 + oy)) by (unfold d1; lia).
-    clearbody c0 d0 c1 d1.
-    rewrite (chk32_ok (c0 + - ox)) by (unfold i32_min, i32_max; lia). cbn [bind].
-    rewrite (chk32_ok (d0 + - oy)) by (unfold i32_min, i32_max; lia). cbn [bind].
-    rewrite (chk32_ok (c1 + - ox)) by (unfold i32_min, i32_max; lia). cbn [bind].
-    rewrite (chk32_ok (d1 + - oy)) by (unfold i32_min, i32_max; lia). cbn [bind].
-    destruct (r_empty _) eqn:Ee; [cbn; split; [exact Hb|reflexivity]|].
-    unfold r_empty in Ee. cbn [x0 y0 x1 y1] in *.
-    rewrite (chk32_ok (c1 + - ox - (c0 + - ox))) by (unfold i32_min, i32_max; lia). cbn [bind].
-    apply (cs_rows_tot dw dh sw sh); try assumption; try (unfold i32_max; lia).
+    set (xa := Z.max (Z.max (x0 sr) 0) (- ox)). set (ya := Z.max (Z.max (y0 sr) 0) (- oy)).
+    set (xb := Z.min (Z.min (x1 sr) sw) (dw - ox)). set (yb := Z.min (Z.min (y1 sr) sh) (dh - oy)).
+    assert (Bxa : 0 <= xa /\ 0 <= xa + ox) by (unfold xa; lia).
+    assert (Bya : 0 <= ya /\ 0 <= ya + oy) by (unfold ya; lia).
+    assert (Bxb : xb <= sw /\ xb + ox <= dw) by (unfold xb; lia).
+    assert (Byb : yb <= sh /\ yb + oy <= dh) by (unfold yb; lia).
+    clearbody xa ya xb yb ox oy.
+    destruct ((xb <=? xa) || (yb <=? ya)) eqn:Ee; [cbn; split; [exact Hb|reflexivity]|].
+    apply (cs_rows_tot dw dh sw sh); try assumption; try lia.
     intros y Hy. apply zrange_In in Hy. lia.
   Qed.
 End SurfaceTotal.
@@ -856,9 +834,6 @@ Qed.
 
 Theorem surface_op_total k dw dh dbuf sw sh sbuf sr dx dy :
   cs_kind_ok k -> Forall px_ok sbuf -> Forall px_ok dbuf -> zlen dbuf = dw * dh -> zlen sbuf = sw * sh ->
-  0 <= dw <= i32_max -> 0 <= dh <= i32_max -> dw * dh <= i32_max ->
-  0 <= sw <= i32_max -> 0 <= sh <= i32_max -> sw * sh <= i32_max ->
-  coord_ok dx -> coord_ok dy -> coord_ok (x0 sr) -> coord_ok (y0 sr) -> coord_ok (x1 sr) -> coord_ok (y1 sr) ->
   tot (opt_mode_err (cs_mode k)) (fun b' => Forall px_ok b' /\ zlen b' = zlen dbuf) (surface_op k dw dh dbuf sw sh sbuf sr dx dy).
 Proof.
   intros Hk. unfold surface_op. apply composite_surface_tot. intros s d. apply cs_fn_tot. exact Hk.
@@ -879,28 +854,21 @@ Definition op_mode (st : dt) (o : op) : option mode :=
   | _ => None
   end.
 
-(* the documented preconditions of each call, and the two places where the model needs more (rect_no_overflow,
-   in_i32 (x + mw), coord_ok: see NOTES.md for the witnesses outside them).  Opacity, alpha, transforms, paths,
-   rectangles, gradient stops, image sizes: any value. *)
-Definition mask_range (s : source) (x y mw mh : Z) (data : list Z) : Prop :=
-  source_ok s /\ Forall byte data /\ 0 <= mw /\ 0 <= mh /\ zlen data = mw * mh /\
-  in_i32 (x + mw) = true /\ in_i32 (y + mh) = true.
-Definition surface_range (k : cs_kind) (sw sh : Z) (sbuf : list Z) (sr : rect) (dx dy : Z) : Prop :=
-  cs_kind_ok k /\ Forall px_ok sbuf /\ zlen sbuf = sw * sh /\
-  0 <= sw <= i32_max /\ 0 <= sh <= i32_max /\ sw * sh <= i32_max /\
-  coord_ok dx /\ coord_ok dy /\ coord_ok (x0 sr) /\ coord_ok (y0 sr) /\ coord_ok (x1 sr) /\ coord_ok (y1 sr).
+(* the documented preconditions of each call and nothing else: premultiplied pixels (sources, source surface),
+   coverage bytes, data lengths matching sizes, pop_layer only after push_layer.
+   Positions, sizes, rectangles, points, opacity, alpha, transforms, paths, gradient stops: ANY value. *)
+Definition mask_range (s : source) (mw mh : Z) (data : list Z) : Prop :=
+  source_ok s /\ Forall byte data /\ (0 < mw -> 0 < mh -> mw * mh <= zlen data).
+Definition surface_range (k : cs_kind) (sw sh : Z) (sbuf : list Z) : Prop :=
+  cs_kind_ok k /\ Forall px_ok sbuf /\ zlen sbuf = sw * sh.
 
 Definition op_in_range (st : dt) (o : op) : Prop :=
   match o with
-  | OpFill _ s _ | OpStroke _ s _ | OpFillPre _ s _ => source_ok s
-  | OpFillRect x y w h s _ => source_ok s /\ (fast_route st x y w h = true -> rect_no_overflow x y w h)
+  | OpFill _ s _ | OpStroke _ s _ | OpFillPre _ s _ | OpFillRect _ _ _ _ s _ => source_ok s
   | OpClear c => px_ok c
-  | OpMask s x y mw mh data => mask_range s x y mw mh data
-  | OpDrawImageAt x y im _ =>
-      image_ok im /\ (fast_route st x y (of_int (i_w im)) (of_int (i_h im)) = true ->
-                      rect_no_overflow x y (of_int (i_w im)) (of_int (i_h im)))
-  | OpDrawImageSize w h x y im _ => image_ok im /\ (fast_route st x y w h = true -> rect_no_overflow x y w h)
-  | OpSurface k sw sh sbuf sr dx dy => surface_range k sw sh sbuf sr dx dy
+  | OpMask s _ _ mw mh data => mask_range s mw mh data
+  | OpDrawImageAt _ _ im _ | OpDrawImageSize _ _ _ _ im _ => image_ok im
+  | OpSurface k sw sh sbuf _ _ _ => surface_range k sw sh sbuf
   | OpPopLayer => d_layers st <> []
   | OpSetTransform _ | OpPushClipRect _ | OpPushClip _ | OpPopClip | OpPushLayer _ _ => True
   end.
@@ -954,17 +922,17 @@ Proof.
   - (* pop_layer *) apply pop_layer_total; assumption.
   - (* fill *) apply fill_total; assumption.
   - (* stroke *) apply fill_total; assumption.
-  - (* fill_rect *) destruct Hr as [Hs Hov]. apply fill_rect_total; assumption.
+  - (* fill_rect *) apply fill_rect_total; assumption.
   - (* clear *) apply ok_tot. apply clear_total; assumption.
-  - (* mask *) destruct Hr as (Hs & Hd & Hw & Hh & Hl & Ox & Oy). apply ok_tot. apply mask_op_total; try assumption. lia.
-  - (* draw_image_at *) destruct Hr as [Hi Hov]. apply draw_image_at_total; assumption.
-  - (* draw_image_with_size_at *) destruct Hr as [Hi Hov]. apply draw_image_with_size_at_total; assumption.
+  - (* mask *) destruct Hr as (Hs & Hd & Hl). apply ok_tot. apply mask_op_total; assumption.
+  - (* draw_image_at *) apply draw_image_at_total; assumption.
+  - (* draw_image_with_size_at *) apply draw_image_with_size_at_total; assumption.
   - (* fill of the pre-transformed path *)
     cbv zeta. eapply tot_bind.
     + apply fill_total; [apply dt_wf_with_ctm; exact W|exact Hr|exact Hz].
     + intros st1 W1. cbn [tot]. apply dt_wf_with_ctm. exact W1.
   - (* surface ops *)
-    destruct Hr as (Hk & Hs & Ls & Hsw & Hsh & Hs32 & C1 & C2 & C3 & C4 & C5 & C6).
+    destruct Hr as (Hk & Hs & Ls).
     pose proof W as (Hw & Hh & Hwh & Lb & Hl & Hc & (Hp & Hb & Hlo & Hco)).
     eapply tot_bind.
     + apply surface_op_total; assumption.
@@ -1079,21 +1047,20 @@ Fixpoint static_ok (strict : bool) (lm : list mode) (nc : nat) (t : xform) (ops 
           | m :: lm' => (strict = true -> In m separable_modes) /\ static_ok strict lm' nc t rest
           end
       | OpClear c => px_ok c /\ nc = O /\ static_ok strict lm nc t rest
-      | OpMask s x y mw mh data => mask_range s x y mw mh data /\ static_ok strict lm nc t rest
+      | OpMask s x y mw mh data => mask_range s mw mh data /\ static_ok strict lm nc t rest
       | OpSurface k sw sh sbuf sr dx dy =>
-          surface_range k sw sh sbuf sr dx dy /\
+          surface_range k sw sh sbuf /\
           (strict = true -> match cs_mode k with Some m => In m separable_modes | None => True end) /\
           static_ok strict lm nc t rest
       | OpFillRect x y w h s d =>
-          source_ok s /\ nc = O /\ xf_is_identity t && integer_rect x y w h = true /\ rect_no_overflow x y w h /\
+          source_ok s /\ nc = O /\ xf_is_identity t && integer_rect x y w h = true /\
           (strict = true -> In (o_blend d) separable_modes) /\ static_ok strict lm nc t rest
       | OpDrawImageSize w h x y im d =>
-          image_ok im /\ nc = O /\ xf_is_identity t && integer_rect x y w h = true /\ rect_no_overflow x y w h /\
+          image_ok im /\ nc = O /\ xf_is_identity t && integer_rect x y w h = true /\
           (strict = true -> In (o_blend d) separable_modes) /\ static_ok strict lm nc t rest
       | OpDrawImageAt x y im d =>
           image_ok im /\ nc = O /\
           xf_is_identity t && integer_rect x y (of_int (i_w im)) (of_int (i_h im)) = true /\
-          rect_no_overflow x y (of_int (i_w im)) (of_int (i_h im)) /\
           (strict = true -> In (o_blend d) separable_modes) /\ static_ok strict lm nc t rest
       | _ => False
       end
@@ -1155,9 +1122,9 @@ Proof.
       destruct (d_layers st) as [|l t]; [discriminate|]. cbn [map] in El. inversion El; subst m. exact Hm.
     + intros st' E. cbn [step_op] in E. destruct (pop_layer_abs st st' Hp E) as (A & B & C).
       apply IH; [exact (Next st' E)|]. rewrite A, B, C, El. exact Hs.
-  - (* fill_rect, fast path *) destruct Hs as (H1 & H2 & H3 & H4 & H5 & H6).
+  - (* fill_rect, fast path *) destruct Hs as (H1 & H2 & H3 & H5 & H6).
     pose proof (fast_route_static st x y w h H3 H2) as Hf.
-    split; [split; [exact H1|intros _; exact H4]|]. split; [intros H0; congruence|]. split; [exact H5|].
+    split; [exact H1|]. split; [intros H0; congruence|]. split; [exact H5|].
     intros st' E. exact (Draw eq_refl st' E H6).
   - (* clear, no clip *) destruct Hs as (H1 & H2 & H3).
     split; [exact H1|]. split; [intros H0; destruct (d_clips st); [congruence|discriminate]|]. split; [intros _; exact I|].
@@ -1165,13 +1132,13 @@ Proof.
   - (* mask *) destruct Hs as (H1 & H2).
     split; [exact H1|]. split; [exact I|]. split; [intros _; exact I|].
     intros st' E. exact (Draw eq_refl st' E H2).
-  - (* draw_image_at, fast path *) destruct Hs as (H1 & H2 & H3 & H4 & H5 & H6).
+  - (* draw_image_at, fast path *) destruct Hs as (H1 & H2 & H3 & H5 & H6).
     pose proof (fast_route_static st x y _ _ H3 H2) as Hf.
-    split; [split; [exact H1|intros _; exact H4]|]. split; [intros H0; congruence|]. split; [exact H5|].
+    split; [exact H1|]. split; [intros H0; congruence|]. split; [exact H5|].
     intros st' E. exact (Draw eq_refl st' E H6).
-  - (* draw_image_with_size_at, fast path *) destruct Hs as (H1 & H2 & H3 & H4 & H5 & H6).
+  - (* draw_image_with_size_at, fast path *) destruct Hs as (H1 & H2 & H3 & H5 & H6).
     pose proof (fast_route_static st x y w h H3 H2) as Hf.
-    split; [split; [exact H1|intros _; exact H4]|]. split; [intros H0; congruence|]. split; [exact H5|].
+    split; [exact H1|]. split; [intros H0; congruence|]. split; [exact H5|].
     intros st' E. exact (Draw eq_refl st' E H6).
   - (* surface ops *) destruct Hs as (H1 & H2 & H3).
     split; [exact H1|]. split; [exact I|]. split; [exact H2|].
@@ -1237,12 +1204,13 @@ Proof.
 Qed.
 
 (* ================================================================== *)
-(** * 14. Witnesses: Err inside the documented argument types          *)
+(** * 14. The former overflow witnesses now return Ok                  *)
 (* ================================================================== *)
 
-(* These are the reasons for rect_no_overflow, in_i32 (x + mw) and coord_ok in op_in_range: i32 additions on
-   caller-supplied coordinates that the crate performs unchecked (panic "attempt to add with overflow" with
-   overflow checks on; confirmed against the crate, see NOTES.md). *)
+(* In the previous model (unchecked i32 additions in fill_rect, mask and composite_surface) these five calls returned
+   Err Overflow, and the crate panicked / painted wrong pixels (see NOTES.md).  After the repairs (saturating_add for
+   the far corner, i64 clipping in composite_surface) they return Ok and draw nothing, as they should: every one of
+   them addresses pixels far outside the 4 x 4 target. *)
 Definition w_st : dt := dt_new 4 4 (repeat 0 16%nat).
 Definition w_red : Z := 4294901760.
 Definition w_opts : draw_options := mk_opts SrcOver f1 true.
@@ -1252,24 +1220,47 @@ Proof.
   apply dt_new_wf; try (unfold i32_max; lia); [reflexivity|]. apply repeat_Forall. apply px_ok_0.
 Qed.
 
-(* fill_rect(2e9, 0, 2e9, 1): identity transform, integer rectangle, no clip: ix + iwidth overflows *)
-Example witness_fill_rect_overflow :
-  step_op w_st (OpFillRect (of_int 2000000000) f0 (of_int 2000000000) f1 (Solid w_red) w_opts) = Err Overflow.
+(* fill_rect(2e9, 0, 2e9, 1): returns, and the buffer is unchanged (the release build used to paint row 0) *)
+Example fixed_fill_rect_far_right :
+  match step_op w_st (OpFillRect (of_int 2000000000) f0 (of_int 2000000000) f1 (Solid w_red) w_opts) with
+  | Ok st' => d_buf st' = d_buf w_st
+  | Err _ => False
+  end.
 Proof. vm_compute. reflexivity. Qed.
-(* draw_image_at(2147483520.0, 0, 1000 x 1 image): the same addition *)
-Example witness_draw_image_overflow :
-  step_op w_st (OpDrawImageAt (of_int 2147483520) f0 (mk_image 1000 1 (repeat w_red 1000%nat)) w_opts) = Err Overflow.
+(* draw_image_at(2147483520.0, 0, 1000 x 1 image) *)
+Example fixed_draw_image_far_right :
+  match step_op w_st (OpDrawImageAt (of_int 2147483520) f0 (mk_image 1000 1 (repeat w_red 1000%nat)) w_opts) with
+  | Ok st' => d_buf st' = d_buf w_st
+  | Err _ => False
+  end.
 Proof. vm_compute. reflexivity. Qed.
-(* mask(src, i32::MAX, 0, 1 x 1 mask): x + mask.width overflows *)
-Example witness_mask_overflow : step_op w_st (OpMask (Solid w_red) 2147483647 0 1 1 [255]) = Err Overflow.
+(* mask(src, i32::MAX, 0, 1 x 1 mask) *)
+Example fixed_mask_at_i32_max :
+  match step_op w_st (OpMask (Solid w_red) 2147483647 0 1 1 [255]) with
+  | Ok st' => d_buf st' = d_buf w_st
+  | Err _ => False
+  end.
 Proof. vm_compute. reflexivity. Qed.
-(* copy_surface(1 x 1 source, src_rect (-1,0)-(1,1), dst (i32::MAX, 0)): dst - src_rect.min overflows *)
-Example witness_copy_surface_overflow :
-  step_op w_st (OpSurface CsCopy 1 1 [w_red] (mkrect (-1) 0 1 1) 2147483647 0) = Err Overflow.
+(* copy_surface(1 x 1 source, src_rect (-1,0)-(1,1), dst (i32::MAX, 0)) *)
+Example fixed_copy_surface_far_right :
+  match step_op w_st (OpSurface CsCopy 1 1 [w_red] (mkrect (-1) 0 1 1) 2147483647 0) with
+  | Ok st' => d_buf st' = d_buf w_st
+  | Err _ => False
+  end.
 Proof. vm_compute. reflexivity. Qed.
-(* the offset fits i32 but src_rect.translate(offset) does not: the bound 2^29 of coord_ok is not far from sharp *)
-Example witness_copy_surface_translate_overflow :
-  step_op w_st (OpSurface CsCopy 10 1 (repeat w_red 10%nat) (mkrect (-1073741823) 0 10 1) 1073741823 0) = Err Overflow.
+(* copy_surface(10 x 1 source, src_rect (-1073741823,0)-(10,1), dst (1073741823, 0)) *)
+Example fixed_copy_surface_big_offset :
+  match step_op w_st (OpSurface CsCopy 10 1 (repeat w_red 10%nat) (mkrect (-1073741823) 0 10 1) 1073741823 0) with
+  | Ok st' => d_buf st' = d_buf w_st
+  | Err _ => False
+  end.
+Proof. vm_compute. reflexivity. Qed.
+(* the remaining data-length hypothesis of mask is necessary: a 2 x 2 mask with 3 bytes of data is an index panic *)
+Example witness_mask_short_data : step_op w_st (OpMask (Solid w_red) 0 0 2 2 [255; 255; 255]) = Err OutOfBounds.
+Proof. vm_compute. reflexivity. Qed.
+(* so is the data length of a source surface: 2 x 2 with 3 pixels *)
+Example witness_surface_short_data :
+  step_op w_st (OpSurface CsCopy 2 2 [w_red; w_red; w_red] (mkrect 0 0 2 2) 0 0) = Err OutOfBounds.
 Proof. vm_compute. reflexivity. Qed.
 (* documented exclusions behave as documented: pop_layer without push_layer is the crate's unwrap of None;
    pop_clip on an empty stack is harmless (Vec::pop) *)
@@ -1297,17 +1288,17 @@ Proof. split; [unfold wf_px, w_red; lia|reflexivity]. Qed.
 Example w_prog_static : static_ok true [] O xf_identity w_prog.
 Proof.
   unfold w_prog. cbn [static_ok]. pose proof w_red_ok as R.
-  split; [exact R|]. split; [reflexivity|]. split; [vm_compute; reflexivity|]. split; [split; vm_compute; reflexivity|].
+  split; [exact R|]. split; [reflexivity|]. split; [vm_compute; reflexivity|].
   split; [intros _; unfold separable_modes; cbn [In o_blend]; tauto|].
   split.
   { unfold mask_range. split; [exact R|]. split; [constructor; [unfold byte; lia|]; constructor; [unfold byte; lia|constructor]|].
-    repeat split; try lia; reflexivity. }
+    intros _ _. unfold zlen. cbn [length]. lia. }
   split; [intros _; unfold separable_modes; cbn [In]; tauto|].
   split.
-  { unfold surface_range, coord_ok, i32_max. cbn [x0 y0 x1 y1 cs_kind_ok].
+  { unfold surface_range. cbn [cs_kind_ok].
     split; [exact I|].
     split; [constructor; [exact R|]; constructor; [apply px_ok_0|]; constructor; [apply px_ok_0|]; constructor; [exact R|constructor]|].
-    split; [reflexivity|]. lia. }
+    reflexivity. }
   split; [intros _; cbn [cs_mode]; unfold separable_modes; cbn [In]; tauto|].
   split; [exact R|]. split; reflexivity.
 Qed.
@@ -1327,5 +1318,5 @@ Print Assumptions push_clip_total.
 Print Assumptions step_op_total_any_mode.
 Print Assumptions static_run_ok.
 Print Assumptions image_offset_shade_in_range.
-Print Assumptions witness_fill_rect_overflow.
+Print Assumptions fixed_fill_rect_far_right.
 Print Assumptions w_prog_runs.
